@@ -9,7 +9,7 @@ def demo():
     # demos written in a sub-agent worktree may assert the worktree path: point them at /repo
     import re, tempfile
     src = open(os.path.join(d, "demo%s.py" % k)).read()
-    src = re.sub(r"/tmp/wt_C\d+", "/repo", src)
+    src = re.sub(r"/tmp/wt\d?_C\d+b?", "/repo", src)
     f = tempfile.NamedTemporaryFile("w", suffix=".py", delete=False, dir="/var/tmp")
     f.write(src); f.close()
     try:
